@@ -1,14 +1,15 @@
 (** * Lex/LexCheck.v — C07 correspondence: decode a case, run the model and the Spec oracle, compare
     with what the real scanner did.  Executable only (extracted / vm_compute).
 
-    case ::= (case (src BYTES) (ign TOKS ERRS) (sig TOKS ERRS) [(api MODE (CALL ...) (RESP ...))])
+    case ::= (case (src BYTES) (ign TOKS ERRS) (sig TOKS ERRS) [(api MODE (CALL ...) (RESP ...) (COUNT ...))])
       ign: scanner.New(src, ScanIgnored), sig: scanner.New(src, 0)
       TOKS ::= ((kind literal line column stringvalue) ...)     kind = int(Token())
       ERRS ::= ((line column) ...)
       api (optional): a fresh scanner in mode MODE (1 = ScanIgnored) driven by an arbitrary call
         sequence; CALL ::= 0 Scan | 1 Token | 2 Position | 3 Literal | 4 StringValue | 5 Errors;
         RESP ::= 0|1 (Scan) | kind (Token) | (line column) (Position) | BYTES or panic (Literal,
-        StringValue) | ERRS (Errors)
+        StringValue) | ERRS (Errors); COUNT: len(Errors()) after each Scan() of the canonical loop in
+        that mode, the final Scan() = false included
 
     Oracle (runs on every case, on the IMPLEMENTATION's observation):
       - src is not valid UTF-8        => the scanner must report an error;
@@ -24,7 +25,7 @@
       - api: every answer is the one LexApiSpec prescribes for the number of Scan() calls issued
         so far, relative to the implementation's OWN canonical observation of that mode (instance
         of LexApiProofs.api_call_order): no panic, stable observers, Scan() stays false after the
-        end, Errors() only grows and ends as the canonical list.
+        end, Errors() at cursor j is exactly the first COUNT[j] errors of the canonical list.
     Inputs in the two known classes (dangling-exponent, inner-bom) are outside the theorem; for
     them the model alone judges the implementation, and the case is reported under the class key.
 
@@ -365,7 +366,7 @@ Fixpoint is_prefix (a b : list (Z * Z)) : bool :=
 (** LexApiSpec, executable, relative to a canonical observation [(ots, oes)]; [last] / [lastj]:
     the previous answer of Errors() and the cursor it was given at.  Result: the key of the first
     answer that is not the prescribed one. *)
-Fixpoint api_oracle (ots : list otok) (oes : list (Z * Z)) (endp : Z * Z) (j : nat)
+Fixpoint api_oracle (ots : list otok) (oes : list (Z * Z)) (counts : list nat) (endp : Z * Z) (j : nat)
   (last : list (Z * Z)) (lastj : nat) (cs : list call) (rs : list oresp) : option string :=
   match cs, rs with
   | [], [] => None
@@ -389,12 +390,12 @@ Fixpoint api_oracle (ots : list otok) (oes : list (Z * Z)) (endp : Z * Z) (j : n
         | CErrors, OErrs es =>
             is_prefix last es && is_prefix es oes &&
             (if Nat.eqb lastj j' then errs_eqb last es else true) &&
-            (match j' with O => is_nil es | S _ => true end) &&
+            (match j' with O => is_nil es | S i => Nat.eqb (List.length es) (nth i counts (List.last counts O)) end) &&
             (if after then errs_eqb es oes else true)
         | _, _ => false
         end in
       if ok then
-        api_oracle ots oes endp j' (match r with OErrs es => es | _ => last end)
+        api_oracle ots oes counts endp j' (match r with OErrs es => es | _ => last end)
                    (match r with OErrs _ => j' | _ => lastj end) cs' rs'
       else Some ("api-" ++ call_name c ++ "-" ++ phase)
   | _, _ => Some "api-shape"
@@ -408,34 +409,36 @@ Fixpoint first_resp_diff (i : nat) (a b : list oresp) : option nat :=
   end.
 
 (** decoded api field: mode, calls, observed answers *)
-Definition dec_api (l : list sexp) : option (option (bool * list call * list oresp)) :=
+Definition dec_api (l : list sexp) : option (option (bool * list call * list oresp * list nat)) :=
   match field "api" l with
   | None => Some None
-  | Some [m; SL cs; SL rs] =>
-      match as_Z m, map_opt dec_call cs with
-      | Some m', Some cs' =>
+  | Some [m; SL cs; SL rs; SL ks] =>
+      match as_Z m, map_opt dec_call cs, map_opt as_nat ks with
+      | Some m', Some cs', Some ks' =>
           match dec_resps cs' rs with
-          | Some rs' => Some (Some (negb (m' =? 0)%Z, cs', rs'))
+          | Some rs' => Some (Some (negb (m' =? 0)%Z, cs', rs', ks'))
           | None => None
           end
-      | _, _ => None
+      | _, _, _ => None
       end
   | Some _ => None
   end.
 
 Definition api_oracle_case (src : bytes) (oi os : list otok * list (Z * Z))
-  (a : option (bool * list call * list oresp)) : option string :=
+  (a : option (bool * list call * list oresp * list nat)) : option string :=
   match a with
   | None => None
-  | Some (m, cs, rs) =>
+  | Some (m, cs, rs, ks) =>
       let o := if m then oi else os in
-      api_oracle (fst o) (snd o) (end_pos src) 0 [] 0 cs rs
+      if negb (Nat.eqb (List.length ks) (S (List.length (fst o)))) then Some "api-error-counts-shape"
+      else if negb (Nat.eqb (List.last ks O) (List.length (snd o))) then Some "api-error-counts-final"
+      else api_oracle (fst o) (snd o) ks (end_pos src) 0 [] 0 cs rs
   end.
 
-Definition api_compare (src : bytes) (a : option (bool * list call * list oresp)) : option sexp :=
+Definition api_compare (src : bytes) (a : option (bool * list call * list oresp * list nat)) : option sexp :=
   match a with
   | None => None
-  | Some (m, cs, rs) =>
+  | Some (m, cs, rs, _) =>
       match map_opt oresp_of_resp (run m src cs) with
       | None => Some (v_mismatch "api-model-out-of-fuel" [])
       | Some ms => match first_resp_diff 0 ms rs with
@@ -447,13 +450,13 @@ Definition api_compare (src : bytes) (a : option (bool * list call * list oresp)
 
 (** the instance of api_call_order on this input: the model's answers against the model's own
     canonical scan *)
-Definition api_theorem_instance (src : bytes) (a : option (bool * list call * list oresp)) : bool :=
+Definition api_theorem_instance (src : bytes) (a : option (bool * list call * list oresp * list nat)) : bool :=
   match a with
   | None => true
-  | Some (m, cs, _) =>
+  | Some (m, cs, _, ks) =>
       match lex m src, map_opt oresp_of_resp (run m src cs) with
       | Done ts es, Some ms =>
-          match api_oracle (map otok_of_token ts) es (end_pos src) 0 [] 0 cs ms with
+          match api_oracle (map otok_of_token ts) es ks (end_pos src) 0 [] 0 cs ms with
           | None => true
           | Some _ => false
           end
@@ -461,10 +464,10 @@ Definition api_theorem_instance (src : bytes) (a : option (bool * list call * li
       end
   end.
 
-Definition api_classes (ots : list otok) (a : option (bool * list call * list oresp)) : list string :=
+Definition api_classes (ots : list otok) (a : option (bool * list call * list oresp * list nat)) : list string :=
   match a with
   | None => []
-  | Some (m, cs, rs) =>
+  | Some (m, cs, rs, _) =>
       let scans := List.length (filter (fun c => match c with CScan => true | _ => false end) cs) in
       ["api"] ++ (if m then ["api-scan-ignored"] else ["api-mode0"]) ++
       (match cs with c :: _ => match c with CScan => [] | _ => ["api-observer-before-scan"] end | [] => [] end) ++
@@ -588,7 +591,7 @@ Definition check (c : sexp) : sexp :=
                     | Some v => v
                     | None =>
                         if theorem_instance src && api_theorem_instance src a
-                        then v_ok (classes src (lex true src) ++ api_classes (fst (if match a with Some (true, _, _) => true | _ => false end then oi else os)) a)
+                        then v_ok (classes src (lex true src) ++ api_classes (fst (if match a with Some (true, _, _, _) => true | _ => false end then oi else os)) a)
                         else v_mismatch "model-vs-spec" []
                     end
                 end
